@@ -48,10 +48,10 @@ def full_io(circ_obs, x, y):
     return xin, yout
 
 
-def dual_rail_amplitudes(circ_obs, n: int) -> np.ndarray:
+def dual_rail_amplitudes(circ_obs, n: int, x=None) -> np.ndarray:
     """psi[b] = heralded amplitude |0..0>_L -> |b>_L (vacuum on loss modes),
     computed with the harness's own permanent from the public U_full/heralds."""
-    x = [1, 0] * n
+    x = [1, 0] * n if x is None else list(x)
     psi = np.zeros(2 ** n, dtype=complex)
     for i, (_bits, y) in enumerate(dual_rail_outputs(n)):
         xin, yout = full_io(circ_obs, x, y)
@@ -98,6 +98,40 @@ def make_qpu(w, tid, n: int):
             results[i] = dict(items)
         return results
     return qpu
+
+
+@op("bystander_tomo")
+def _bystander_tomo(w, o):
+    """A throw-away tomography run on a pool circuit (must not alter it, nor
+    the shared measurement / input-preparation gate instances)."""
+    from lightworks.tomography import GateFidelity, LIProcessTomography  # noqa: PLC0415
+
+    c = w.get("c", o["c"])
+    n = c.input_modes // 2
+
+    def experiment(circuits, inputs=None):
+        out = []
+        for i, cc in enumerate(circuits):
+            ob = obs_circuit(cc)
+            if isinstance(ob[4], tuple):
+                raise QPUFault("handed circuit does not compile")
+            x = None if inputs is None else list(inputs[i])
+            psi = dual_rail_amplitudes(ob, n, x)
+            d = {lw.State(y): float(abs(a) ** 2) + 1e-9
+                 for (_b, y), a in zip(dual_rail_outputs(n), psi, strict=True)}
+            out.append(d)
+        return out
+    kind = o.get("kind", "state")
+    if kind == "state":
+        t = w.call(StateTomography, n, c, experiment)
+        w.call(t.process)
+    elif kind == "li":
+        t = w.call(LIProcessTomography, n, c, experiment)
+        w.call(t.process)
+    else:
+        t = w.call(GateFidelity, n, c, experiment)
+        w.call(t.process, np.identity(2 ** n, dtype=complex))
+    return n
 
 
 @op("tomo_new")
